@@ -178,15 +178,27 @@ func run(c *mon.Ctx) {
 	c.Assume("pointer_field is 0 (the statement does not vary it for PAT); payload carriers of exactly 188 bytes are avoided because NewPAT documents that it treats a 188-byte slice as a transport packet; program numbers within one table are distinct")
 	c.Floor("concurrent.calls", 5000)
 	c.Stream("concurrent-decoders", c.N(8, 200), func(i int, r *gen.Rand) {
-		c.Concurrent("psi.NewPAT", 8, 2000, r, func(q *gen.Rand) string {
+		c.Concurrent("psi.NewPAT (payload, packet) / psi.ReadPAT", 8, 2000, r, func(q *gen.Rand) string {
 			p := genPAT(q, 30)
 			pay := q.Slack(append([]byte{0}, p.Section()...))
 			if len(pay) == 188 {
 				pay = append(pay, 0xff)
 			}
 			pat, err := psi.NewPAT(pay)
+			switch q.Intn(3) {
+			case 1: // the whole-packet carrier
+				pk := ref.PaddedPacket(0, q.Intn(16), true, append([]byte{0}, p.Section()...))
+				if q.Bool() && len(p.Section()) < 150 {
+					pk = ref.PayloadPacket(0, q.Intn(16), true, append([]byte{0}, p.Section()...))
+				}
+				pat, err = psi.NewPAT(pk[:])
+			case 2: // the stream carrier
+				pk := ref.PaddedPacket(0, q.Intn(16), true, append([]byte{0}, p.Section()...))
+				o := ref.PaddedPacket(1+q.Intn(8190), q.Intn(16), q.Bool(), q.Bytes(q.Intn(185)))
+				pat, err = psi.ReadPAT(bytes.NewReader(append(append([]byte{}, o[:]...), pk[:]...)))
+			}
 			if err != nil || pat == nil {
-				return fmt.Sprintf("a well-formed payload was rejected: %v", err)
+				return fmt.Sprintf("a well-formed PAT was rejected: %v", err)
 			}
 			want := map[int]int{}
 			for _, e := range p.Entries {
